@@ -66,3 +66,18 @@ func (k BaseKeeper) BurnCoins(ctx sdk.Context, moduleName string, amounts sdk.Co
 
 	return k.BaseKeeper.BurnCoins(ctx, moduleName, amounts)
 }
+
+// UndelegateCoinsFromModuleToAccount pays matured unbonding coins out to the delegator. The account of
+// a contract that self-destructed while its unbonding was pending no longer exists: the SDK's bank
+// keeper then fails ("account does not exist") AFTER it has debited the not-bonded pool, and the staking
+// EndBlocker ignores the error, so the coins would vanish from all balances while the supply stays.
+// Like SendCoins does for a new recipient, create the account instead.
+func (k BaseKeeper) UndelegateCoinsFromModuleToAccount(
+	ctx sdk.Context, senderModule string, recipientAddr sdk.AccAddress, amt sdk.Coins,
+) error {
+	if !k.ak.HasAccount(ctx, recipientAddr) {
+		k.ak.SetAccount(ctx, k.ak.NewAccountWithAddress(ctx, recipientAddr))
+	}
+
+	return k.BaseKeeper.UndelegateCoinsFromModuleToAccount(ctx, senderModule, recipientAddr, amt)
+}
